@@ -113,7 +113,7 @@ func draw(rt *rapid.T) Scenario {
 	sc.Upstreams = rapid.IntRange(1, 3).Draw(rt, "upstreams")
 	sc.Required = rapid.Bool().Draw(rt, "required")
 	sc.TimeoutS = []int{1, 5, 30}[rapid.IntRange(0, 2).Draw(rt, "timeout")]
-	ncallers := rapid.IntRange(1, 5).Draw(rt, "callers")
+	ncallers := rapid.IntRange(1, detsim.Scale(5, 8)).Draw(rt, "callers")
 	for c := 0; c < ncallers; c++ {
 		nops := rapid.IntRange(1, 4).Draw(rt, "nops")
 		ops := []Op{}
